@@ -142,8 +142,24 @@ def callReadCb (u : User) (s : St) (nread : Int) (buf : Option Nat) (bytes : Lis
 def streamEof (u : User) (s : St) (buf : Option Nat) : St :=
   callReadCb u { s with readEof := true, reading := false, pollin := false } UV_EOF buf []
 
-/-- one iteration of the `while` loop of uv__read (its condition already checked), stream.c:1049-1155;
-    the Bool says whether control reaches the loop condition again (`true`) or uv__read returns -/
+/-- uv__read after the read(2)/recvmsg(2) call returned `r` into the buffer of alloc `id` (`sz` bytes),
+    stream.c:1084-1155; the Bool says whether control reaches the loop condition again -/
+def afterRead (u : User) (s : St) (id sz : Nat) : RRes → St × Bool
+  | .eagain =>                                                       -- 1086-1092
+    let s := if s.reading then { s with pollin := true } else s
+    (callReadCb u s 0 (some id) [], false)
+  | .err e =>                                                        -- 1098-1109
+    let s := callReadCb u { s with readable := false, writable := false } (-(e : Int)) (some id) []
+    (if s.reading then { s with reading := false, pollin := false } else s, false)
+  | .eof => (streamEof u s (some id), false)                         -- 1110-1112
+  | .data bs =>                                                      -- 1113-1155
+    let s := callReadCb u s bs.length (some id) bs
+    -- "didn't fill the buffer, there is no more data": not for IPC pipes, where the kernel ends a
+    -- read at the boundary of a descriptor-carrying message (1150-1157)
+    if bs.length < sz && !s.ipc then ({ s with readPartial := true }, false)
+    else (s, true)
+
+/-- one iteration of the `while` loop of uv__read (its condition already checked), stream.c:1049-1155 -/
 def readRound (u : User) (s : St) : St × Bool :=
   let id := s.nAlloc
   let sz := u.allocS id
@@ -153,21 +169,7 @@ def readRound (u : User) (s : St) : St × Bool :=
   else
     let sk := skipEintr s.oracle                                     -- 1062-1082
     let kr := kread s.kbuf s.peerShut sz sk.2.1
-    let s := { s with oracle := sk.2.2, nSys := s.nSys + sk.1, kbuf := kr.2 }
-    match kr.1 with
-    | .eagain =>                                                     -- 1086-1092
-      let s := if s.reading then { s with pollin := true } else s
-      (callReadCb u s 0 (some id) [], false)
-    | .err e =>                                                      -- 1098-1109
-      let s := callReadCb u { s with readable := false, writable := false } (-(e : Int)) (some id) []
-      (if s.reading then { s with reading := false, pollin := false } else s, false)
-    | .eof => (streamEof u s (some id), false)                       -- 1110-1112
-    | .data bs =>                                                    -- 1113-1155
-      let s := callReadCb u s bs.length (some id) bs
-      -- "didn't fill the buffer, there is no more data": not for IPC pipes, where the kernel ends a
-      -- read at the boundary of a descriptor-carrying message (1150-1157)
-      if bs.length < sz && !s.ipc then ({ s with readPartial := true }, false)
-      else (s, true)
+    afterRead u { s with oracle := sk.2.2, nSys := s.nSys + sk.1, kbuf := kr.2 } id sz kr.1
 
 /-- the `while` loop of uv__read, stream.c:1046-1156; `count` = iterations left -/
 def readLoop (u : User) : Nat → St → St
